@@ -144,7 +144,7 @@ def r3(ctx, rep):
 
 
 def r4(ctx, rep):
-    rep.rule("C18.R4", "the option's dialect is passed through sql::compile and translate_query unchanged", floor=2)
+    rep.rule("C18.R4", "the option's dialect is passed through sql::compile and translate_query unchanged, and only the resolving function looks at it", floor=4)
     syn = ctx.syn
     c = syn.fn("sql::compile", crate="prqlc", file_suffix="sql/mod.rs")
     # the value handed to translate_query is the very binding of the destructured options.target: a later `let dialect = f(dialect)`
@@ -163,6 +163,29 @@ def r4(ctx, rep):
     tp = [p_["name"] for p_ in t.get("params", []) if isinstance(p_, dict) and "name" in p_]
     rep.check(len(call) == 1 and len(tp) >= 2 and [At.show(a) for a in call[0]["a"]] == tp[:2], "translate_query",
               "translate_query must hand its dialect argument to compile_query unchanged", file=t["file"], line=t["l"], fn=t["path"])
+    # between sql::compile and the function that resolves option-vs-header, the raw option is only handed on: a decision taken on it
+    # (`dialect == Some(X)`, `match dialect`, `.map(..)`) sees `None` when the target comes from the header, so the same program would
+    # compile differently under an option and under the equal header
+    resolver_fns = {f_["path"] for f_ in syn.fns if f_["crate"] == "prqlc" and "body" in f_ and "/src/sql/" in f_["file"]
+                    and any(x.get("k") == "mcall" and x["m"] == "get" and x["a"] and "target" in show(x["a"][0]) for x in walk(f_["body"]))}
+    n_through = 0
+    for f_ in syn.fns:
+        if f_["crate"] != "prqlc" or "body" not in f_ or "/src/sql/" not in f_["file"] or f_["path"] in resolver_fns:
+            continue
+        raw = [p_["name"] for p_ in f_.get("params", []) if isinstance(p_, dict) and re.sub(r"\s", "", p_.get("ty") or "") in ("Option<Dialect>", "Option<crate::sql::Dialect>", "Option<super::Dialect>")]
+        for nm in raw:
+            n_through += 1
+            par_ = __import__("guards").parents(f_["body"])
+            badu = []
+            for x in walk(f_["body"]):
+                if x.get("k") == "path" and x["p"] == nm:
+                    q = par_.get(id(x))
+                    if q is not None and q.get("k") == "call" and any(a is x for a in q["a"]):
+                        continue        # handed on as an argument
+                    badu.append(x["l"])
+            rep.check(not badu, f"raw-option-only-forwarded:{f_['name']}", f"{f_['path']} looks at the raw target option `{nm}` (line(s) {badu}) instead of the dialect resolved from option and header: "
+                      "with the target given in the `prql target:` header the option is None and the decision differs from the one taken under the equal option", file=f_["file"], line=badu[0] if badu else f_["l"], fn=f_["path"])
+    rep.check(n_through >= 1 and resolver_fns, "raw-option-sites", f"expected a function that forwards the raw option and one that resolves it against the header; found {n_through} / {sorted(resolver_fns)}")
     # lib.rs entry points pass options through
     for name in ("compile", "rq_to_sql"):
         f = syn.fn("prqlc::" + name, crate="prqlc")
